@@ -11,7 +11,7 @@ CAUGHT = {
  "C05-1": ("C05", "timestamp_order_inversion", "patch ported to the fixed tree (the original touched the lines of fix b344e2f); original kept as patch_original.diff"),
  "C05-2": ("C05", "timestamp_order_inversion", ""),
  "C06-1": ("C06", "flush_returned_before_other_threads_statement_written / _in_file / flush_returned_before_sink_flushed", ""),
- "C06-2": ("C10", "flush_returned_with_a_healthy_sink_unflushed", "needs a sink whose flush throws: caught by the C10 check (fault injection), not by C06 whose plans inject no sink faults; the C10 oracle was extended for it"),
+ "C06-2": ("C10", "flush_returned_with_a_healthy_sink_unflushed", "needs a sink whose flush throws: caught by the C10 check (fault injection), not by C06 whose plans inject no sink faults; the C10 oracle was extended for it. In my confirmation run the wall-clock timing test stopwatch_tsc failed under machine load (unrelated to the change; the author's run passed 183/183)"),
  "C10-1": ("C10", "backend_makes_no_progress_after_fault", ""),
  "C10-2": ("C10", "wrong_attribution (named arguments of a failed statement delivered with a later statement)", "caught after the attribution oracle (line / thread id / logger / named arguments) was added to the delivery check"),
  "C20-1": ("C20", "thread_contexts_not_reclaimed", ""),
@@ -20,7 +20,7 @@ CAUGHT = {
  "C08-2": ("C08", "crash:Aborted (quill's own size-accounting assert)", "missed at first; caught after C08 bursts used C-string / string_view / named-argument call sites"),
  "C09-1": ("C09", "blocked_log_call_never_resumes, fitting_statement_dropped_on_empty_queue (SIM-SYS level)", ""),
  "C09-2": ("C09", "blocked_log_call_never_resumes", ""),
- "C16-1": ("C16", "wrong_attribution (reported level 10 instead of the dynamic level)", ""),
+ "C16-1": ("C16", "wrong_attribution (reported level 10 instead of the dynamic level)", "in my confirmation run the wall-clock timing test stopwatch_tsc failed under machine load (unrelated to the change; the author's run passed 183/183)"),
  "C16-2": ("C16", "wrong_attribution (formatted line of another sink's override pattern)", ""),
  "C17-1": ("C17", "blocking_removal_never_returns, crash:Segmentation_fault", ""),
  "C17-2": ("C17", "sink_lookup_not_idempotent", "missed at first; caught after sink lookups by name (OP_GET_SINK) and up to 4 sinks were added to C17 plans"),
